@@ -207,6 +207,19 @@ def _impl(tier, seed, search):
                     try: got = classify(mk(c, m) * bad)
                     except Exception: continue
                     L.fail(f'must-raise:{c}*non-conforming', f'{c} * {bad!r} must raise but returned {got}', inp, observed=got, required='exception')
+        # scalar + object (the reflected operator, e.g. the implicit start value of sum()) is not defined for these classes: 0, 0.0, False, 2 all raise
+        for c in QUAT + ['Twist2', 'Twist3', 'Plucker'] + list(SPAT) + ['SpatialInertia']:
+            for m in (1, 2):
+                if m > 1 and c in ('Plucker', 'SpatialInertia'): continue
+                for sc_, tag in ((0, '0'), (0.0, '0.0'), (False, 'False'), (2, '2'), (np.float64(0.0), 'np.float64(0)')):
+                    for side in (('scalar + X', 'scalar - X') if c in QUAT else ('scalar + X', 'X + scalar', 'scalar - X')):      # Quaternion + scalar is defined (element-wise)
+                        inp = dict(cls=c, op=side, scalar=tag, len=m)
+                        L.count('scalar+object', key=(c, tag, side, m)); L.sample('scalar+object', inp)
+                        try:
+                            X_ = mk(c, m)
+                            got = classify(sc_ + X_ if side == 'scalar + X' else (X_ + sc_ if side == 'X + scalar' else sc_ - X_))
+                        except Exception: continue
+                        L.fail(f'must-raise:scalar+{c}', f'{side} with scalar {tag} and a {c} must raise but returned {got}', inp, observed=got, required='exception')
         # pose / array: only pose / pose and pose / scalar are defined — an array of the pose's own matrix shape (or any other array / list) must raise
         for c in POSE:
             n_ = dict(SO2=2, SE2=3, SO3=3, SE3=4)[c]
